@@ -43,8 +43,9 @@ def run(rep, tier, seed):
         if tier == 'quick':
             chk.check('chk', gen_consts(2, 2), invariants=INVS)
             ex = chk.generate('table', gen_consts(2, 1), cassettes=('memory',), n_conc=1, all_paths=True, cap=60000)
-            chk.generate('tworuns', gen_consts(1, 2, Ends=['ret'], Classes=[c for c in classes() if c['rate'] in ('frac', 'zero')]),
-                         cassettes=('memory',), n_conc=1, sample=3000, cap=5000)
+            chk.generate('tworuns', gen_consts(1, 2, Ends=['ret'], InCalls=[('ia2', 1)], InFaults=['none', 'prepFail', 'keyFail'],
+                                               Classes=[c for c in classes() if c['rate'] in ('frac', 'zero')]),
+                         cassettes=('memory',), n_conc=1, all_paths=True, cap=40000)
             long_histories(rep, seed, n=2500)
             storage_sampling(rep, seed, n=400)
             rep.exhaustive = bool(ex)
@@ -123,10 +124,16 @@ def _history(seed, n, content_seed, rates):
 
 def long_histories(rep, seed, n):
     rates = [0.3, 0.7, 1.0]
+    # seed 0 is a legal seed too: the same seed twice must give the same decisions for it as well
+    z1, _, _ = _history(0, min(n, 400), content_seed=11, rates=rates)
+    z2, _, _ = _history(0, min(n, 400), content_seed=11, rates=rates)
+    if z1 != z2:
+        rep.violation({'summary': 'sampling_history: random_seed=0 twice gave different decision sequences', 'signature': None},
+                      replay={'kind': 'history', 'seed': 1, 'n': 400, 'index': 0})
     a, da, draws_a = _history(seed + 1, n, content_seed=11, rates=rates)
     b, db, _ = _history(seed + 1, n, content_seed=11, rates=rates)
     c, dc, _ = _history(seed + 1, n, content_seed=99, rates=rates)
-    rep.evaluations += 3 * n
+    rep.evaluations += 3 * n + 800
     info = {'decisions': n, 'seed': seed + 1}
     if a != b:
         i = next(i for i in range(n) if a[i] != b[i])
